@@ -112,6 +112,7 @@ func (s scopeInfo) child(encl string) scopeInfo {
 }
 
 type fileGen struct {
+	role   string
 	path   string
 	b      strings.Builder
 	line   int
@@ -370,6 +371,9 @@ func (g *G) stmt(sc *scopeInfo) {
 		}
 	case 10:
 		g.includeStmt(*sc)
+		if g.O.Blocks && g.f.role == "inc" && g.T.Choose(3) == 2 {
+			g.act("yield shared()")
+		}
 	case 11:
 		g.tryStmt(*sc)
 	case 12:
@@ -684,7 +688,7 @@ func (g *G) targetTry(sc scopeInfo) {
 
 // file generates one file with the given role.
 func (g *G) file(path, role string, extends string, imports []string, visible []BlockInfo) {
-	g.f = &fileGen{path: path, blocks: append([]BlockInfo(nil), visible...)}
+	g.f = &fileGen{path: path, role: role, blocks: append([]BlockInfo(nil), visible...)}
 	g.W.Order = append(g.W.Order, path)
 	if extends != "" {
 		g.act(fmt.Sprintf("extends %q", extends))
@@ -699,6 +703,11 @@ func (g *G) file(path, role string, extends string, imports []string, visible []
 	}
 	if (g.O.Sites || g.O.TargetTry) && (role == "main" || role == "base" || role == "main-target") {
 		g.emit("{{mark(9000)}}")
+	}
+	// every root template provides its own definition of block "shared"; included files yield it
+	// without defining it (resolved through the includer's scope at run time)
+	if g.O.Blocks && g.O.Include && (role == "main" || role == "base" || role == "main-target") {
+		g.emit(fmt.Sprintf("{{block shared()}}[shared:%s]{{end}}", fileTag(path)))
 	}
 	sc := scopeInfo{ctx: KRoot}
 	switch role {
@@ -727,6 +736,9 @@ func (g *G) file(path, role string, extends string, imports []string, visible []
 		sc.ctx = KItem
 		sc.depth = 1
 		g.list(sc, g.O.MaxStmts-1)
+		if g.O.Blocks && g.T.Choose(2) == 1 {
+			g.act("yield shared()") // defined by whoever includes this file
+		}
 	case "ret":
 		sc.ctx = KAny
 		sc.depth = 1
